@@ -5,6 +5,7 @@ package props
 
 import (
 	"fmt"
+	u "github.com/utreexo/utreexo"
 	"testing"
 
 	"pgregory.net/rapid"
@@ -16,6 +17,11 @@ type C01Case struct {
 	Maps   []Cfg   `json:"maps"`          // map-forest configurations run beside Stump and Pollard
 	Alt    []Block `json:"alt,omitempty"` // the same per-slot fate, batched differently
 	AltM   string  `json:"altmode,omitempty"`
+	// Late: a map forest (full or partial) that joins at block LateAt from the BARE ROOTS of that moment
+	// (NewMapPollardFromRoots): it knows none of the older leaves, learns the ones a block spends
+	// through Verify(remember) right before that block, and must agree on the roots from then on.
+	Late   *Cfg `json:"late,omitempty"`
+	LateAt int  `json:"late_at,omitempty"`
 }
 
 func genC01(t *rapid.T) C01Case {
@@ -29,6 +35,10 @@ func genC01(t *rapid.T) C01Case {
 	c.Maps[0].Full = true
 	c.Maps[1].Full = false
 	c.Alt, c.AltM = genRebatch(t, c.Blocks)
+	if len(c.Blocks) >= 2 && rapid.IntRange(0, 2).Draw(t, "late") == 0 {
+		c.Late = &Cfg{Kind: "map", Full: rapid.Bool().Draw(t, "late-full"), Rows: 63}
+		c.LateAt = rapid.IntRange(1, len(c.Blocks)-1).Draw(t, "late-at")
+	}
 	return c
 }
 
@@ -110,6 +120,36 @@ func (ls *lockstep) step(i int, b Block) error {
 	proof := v.Proof(delH)
 	first := len(ls.f.Hashes)
 	adds, _ := mkLeavesSalt(b.Salt, first, b.Add, func(k int) bool { return inSet(b.Rem, k) })
+	if len(b.Bad) > 0 {
+		for _, s := range b.Bad {
+			if s < 0 || s >= len(ls.f.Dead) || ls.f.Dead[s] {
+				return fmt.Errorf("case error: block %d: bad-block slot %d is not live", i, s)
+			}
+		}
+		bh := append(ls.f.HashesOf(b.Bad), model.FreshHash(777+i))
+		bp := v.Proof(ls.f.HashesOf(b.Bad))
+		bp.Targets = append(bp.Targets, v.MaxPos()) // something for the unknown hash; never looked at
+		for _, in := range ls.insts {
+			if in.M == nil {
+				continue // Stump.Update is C04's business, Pollard.Modify documents that it validates nothing
+			}
+			if in.M.Full || func() bool { // a partial forest gets there only if it knows the live ones
+				for _, h := range bh[:len(bh)-1] {
+					if _, ok := in.M.CachedLeaves.Get(h); !ok {
+						return false
+					}
+				}
+				return true
+			}() {
+				if err := in.M.Modify(nil, cloneHashes(bh), cloneProof(bp)); err == nil {
+					return fmt.Errorf("before block %d: %s accepted a block spending a hash that is not a leaf of the forest", i, in.Cfg)
+				}
+				if err := in.checkRoots(v); err != nil {
+					return fmt.Errorf("before block %d, after a REFUSED block (live slots %v + an unknown hash): %v", i, b.Bad, err)
+				}
+			}
+		}
+	}
 	if len(b.Prune) > 0 {
 		for _, s := range b.Prune {
 			if s < 0 || s >= len(ls.f.Dead) || ls.f.Dead[s] {
@@ -151,6 +191,10 @@ func runC01(c C01Case) *Result {
 		res.class(fmt.Sprintf("full=%v", m.Full))
 	}
 	ls := newLockstep(cfgs)
+	var late *Inst
+	if c.Late != nil && (c.LateAt < 1 || c.LateAt >= len(c.Blocks) || c.Late.Kind != "map") {
+		return res.failf("case error: late joiner at block %d of %d", c.LateAt, len(c.Blocks))
+	}
 	var anyDel, anyAdd, special bool
 	for i, b := range c.Blocks {
 		sh := shapeOf(ls.f, b)
@@ -167,8 +211,41 @@ func runC01(c C01Case) *Result {
 				}
 			}
 		}
+		// the late joiner: created from the bare roots right before block LateAt
+		var lateArgs struct {
+			delH  []Hash
+			proof u.Proof
+			adds  []u.Leaf
+		}
+		if c.Late != nil && i >= c.LateAt {
+			v := ls.f.View()
+			if i == c.LateAt {
+				m := u.NewMapPollardFromRoots(cloneHashes(v.Roots), v.N, c.Late.Full)
+				late = &Inst{Cfg: *c.Late, M: &m}
+				res.class(fmt.Sprintf("late-joiner:full=%v", c.Late.Full))
+			}
+			lateArgs.delH = ls.f.HashesOf(b.Del)
+			lateArgs.proof = v.Proof(lateArgs.delH)
+			lateArgs.adds, _ = mkLeavesSalt(b.Salt, len(ls.f.Hashes), b.Add, func(k int) bool { return inSet(b.Rem, k) })
+		}
 		if err := ls.step(i, b); err != nil {
 			return res.failf("%v", err)
+		}
+		if late != nil {
+			where := fmt.Sprintf("block %d, %s started from the bare roots before block %d", i, late.Cfg, c.LateAt)
+			if len(lateArgs.delH) > 0 {
+				// it may or may not know these leaves: learn them the documented way
+				if err := late.M.Verify(cloneHashes(lateArgs.delH), cloneProof(lateArgs.proof), true); err != nil {
+					return res.failf("%s: Verify(remember) of the block's honest proof failed: %v", where, err)
+				}
+			}
+			if err := late.M.Modify(lateArgs.adds, cloneHashes(lateArgs.delH), cloneProof(lateArgs.proof)); err != nil {
+				return res.failf("%s: Modify rejected a valid block whose deletions it had just verified with remember: %v", where, err)
+			}
+			if err := late.checkRoots(ls.f.View()); err != nil {
+				return res.failf("%s: %v", where, err)
+			}
+			res.count("late-joiner-blocks", 1)
 		}
 	}
 	res.NonTrivial = anyDel && anyAdd && special
